@@ -698,6 +698,35 @@ func runAll(r *vk.Run, quick bool) {
 		}
 		rec(0)
 	}
+	// every legal NAL body of <= 5 bytes over {00,01,02,03} (what a start-code scanner can confuse),
+	// as the first of two units and as the only unit, with 3- and 4-byte start codes
+	saved := unitAlphabet
+	var body func(cur []byte)
+	body = func(cur []byte) {
+		if len(cur) > 0 && cur[len(cur)-1] != 0 {
+			u := append([]byte{0x65}, cur...)
+			unitAlphabet = [][]byte{u, {0x41, 0x9a}}
+			for _, sc := range [][]int{{3, 3}, {4, 4}, {3, 4}, {4, 3}} {
+				checkFraming(r, []int{0, 1}, sc, 0, 0)
+				checkFraming(r, []int{1, 0}, sc, 0, 1)
+				nb += 2
+			}
+			checkFraming(r, []int{0}, []int{3}, 1, 0)
+			nb++
+		}
+		if len(cur) == 5 {
+			return
+		}
+		for _, x := range []byte{0, 1, 2, 3} {
+			n := len(cur)
+			if n >= 2 && cur[n-1] == 0 && cur[n-2] == 0 && x != 3 {
+				continue // 00 00 0x (x<3) cannot occur inside a NAL unit
+			}
+			body(append(append([]byte{}, cur...), x))
+		}
+	}
+	body(nil)
+	unitAlphabet = saved
 	r.Cov("framing_cases", nb)
 	// (c)
 	for ot := 1; ot <= 31; ot++ {
